@@ -465,7 +465,32 @@ func deriveTripCount(loop *Loop) {
 	var isUpCounting, ivOnLeft bool
 	var isInclusive, isNEQ bool
 
-	switch binOp.Op {
+	// The formulas below read the comparison as the condition under which the loop CONTINUES.
+	// When the true branch is the one that leaves the loop (`if i >= n { break }`), the
+	// continue condition is the negated comparison.
+	cmpOp := binOp.Op
+	if len(exitBlock.Succs) == 2 && !loop.Blocks[exitBlock.Succs[0]] {
+		if !loop.Blocks[exitBlock.Succs[1]] {
+			loop.TripCount = &SCEVUnknown{Value: nil}
+			return
+		}
+		switch cmpOp {
+		case token.LSS:
+			cmpOp = token.GEQ
+		case token.LEQ:
+			cmpOp = token.GTR
+		case token.GTR:
+			cmpOp = token.LEQ
+		case token.GEQ:
+			cmpOp = token.LSS
+		default:
+			// `if i != n { break }` continues while i == n: not a counted loop.
+			loop.TripCount = &SCEVUnknown{Value: nil}
+			return
+		}
+	}
+
+	switch cmpOp {
 	case token.LSS:
 		isUpCounting = true
 		ivOnLeft = true
